@@ -48,7 +48,18 @@ class SdpTask:
         return rec
 
     def _run(self, rec, seed):
-        cap = capture_call(self.call, self.abort_after)
+        try:
+            cap = capture_call(self.call, self.abort_after)
+        except Exception as e:  # noqa: BLE001 - the real function failed before handing a program to the solver
+            rec["disagreements_checked"] = 1
+            try:
+                self.call()
+                rec["notes"].append(f"exception during capture did not reproduce: {type(e).__name__}: {e}")
+            except Exception as e2:  # noqa: BLE001
+                rec["status"] = "violation"
+                rec["violation"] = {"source": "the real function raises before reaching the solver (reproduced)", "inputs": jsonable(self.cfg),
+                                    "exception": f"{type(e2).__name__}: {str(e2)[:300]}"}
+            return
         if cap is None:
             rec["notes"].append("no Problem.solve was reached: zero coverage")
             return
@@ -102,6 +113,13 @@ class SdpTask:
             rec["notes"].append(f"formulation differs from the reference but the value agrees ({got:.6f} vs {want:.6f}): equivalent rewrite or redundant constraint")
 
     def replay(self, rp):
+        if "exception" in rp.get("violation", {}):
+            try:
+                self.call()
+                return True
+            except Exception as e:  # noqa: BLE001
+                print({"exception": f"{type(e).__name__}: {e}"})
+                return False
         got = self.value_of(self.call())
         want = rp["violation"]["expected"]
         print({"actual": got, "expected": want})
